@@ -88,8 +88,8 @@ theorem eq_of_pairwise {α β : Type} {f : α → β} {l : List α} (h : l.Pairw
 
 /-! ### evaluation of the building blocks -/
 
-theorem eval_query {α β : Type} (tag : Stmt) (f : Db → β) (k : β → Prog α) (db : Db) :
-    eval (.step (query tag f) k) db = eval (k (f db)) db := rfl
+theorem eval_query {α β : Type} (tag : Stmt) (args : List Arg) (f : Db → β) (k : β → Prog α) (db : Db) :
+    eval (.step (query tag args f) k) db = eval (k (f db)) db := rfl
 
 theorem eval_withMetaRows {α : Type} : ∀ (rs : List NameRow) (k : List Entry → Prog α) (db : Db),
     eval (withMetaRows rs k) db = eval (k (rs.map db.entryOf)) db
@@ -104,8 +104,8 @@ theorem rowsNoMeta_eq (db : Db) (rs : List NameRow) : rowsNoMeta rs = (rs.map db
   rw [List.map_map]
   rfl
 
-theorem eval_listRows {α : Type} (t1 t2 : Stmt) (f : Db → List NameRow) (wm : Bool) (k : List Entry → Prog α) (db : Db) :
-    eval (listRows (query t1 f) (query t2 f) wm k) db = eval (k (((f db).map db.entryOf).map (Entry.strip wm))) db := by
+theorem eval_listRows {α : Type} (t1 t2 : Stmt) (a1 a2 : List Arg) (f : Db → List NameRow) (wm : Bool) (k : List Entry → Prog α) (db : Db) :
+    eval (listRows (query t1 a1 f) (query t2 a2 f) wm k) db = eval (k (((f db).map db.entryOf).map (Entry.strip wm))) db := by
   unfold listRows
   cases wm with
   | true => simp only [if_true, eval_query, eval_withMetaRows, map_strip_true]
